@@ -61,6 +61,16 @@ def gen_cases(tier, seed):
             for f2 in un:
                 for f3 in un:
                     cases.append(dict(kind="tree", spec=f3(f2(f1(leaf)))))
+    # sums and differences in which a scaled identity is the first, the last or a middle term (the usual regulariser)
+    I23 = dict(op="Identity", shape=[2, 3], ish=[2, 3], osh=[2, 3])
+    for X in [l for l in programs.LEAVES if l["ish"] == [2, 3] and l["osh"] == [2, 3]]:
+        for c in (programs.SCALARS[0], programs.SCALARS[1], 1, 0):
+            cI = dict(op="LScale", c=c, kids=[I23])
+            Ic = dict(op="RScale", c=c, kids=[I23]) if c in programs.SCALARS[:2] else cI
+            for t in (dict(op="Add", kids=[cI, X]), dict(op="Add", kids=[X, cI]), dict(op="Sub", kids=[cI, X]), dict(op="Sub", kids=[X, Ic]),
+                      dict(op="AddN", kids=[cI, X, X]), dict(op="AddN", kids=[X, cI, X]), dict(op="AddN", kids=[I23, cI, X]),
+                      dict(op="IAdd", kids=[cI, X]), dict(op="Add", kids=[dict(op="Add", kids=[cI, X]), Ic])):
+                cases.append(dict(kind="tree", spec=t))
     for t in programs.trees(programs.LEAVES3, 1):
         cases.append(dict(kind="tree", spec=t))
     for t in programs.ill_typed_pairs(programs.LEAVES3):
